@@ -4,6 +4,7 @@ import (
 	"fmt"
 	"math/rand"
 	"os"
+	"strings"
 	"time"
 
 	"verif/harness/internal/dbx"
@@ -452,6 +453,9 @@ func implStream(evs []gate.Event) []ImplEvent {
 		return 0
 	}
 	for _, e := range evs {
+		if strings.HasPrefix(e.Point, "cl.") {
+			break // Close hands the last memtable over on its own path; the comparison ends here
+		}
 		switch e.Point {
 		case "api":
 			a := e.Args[0].(rec.Event)
